@@ -107,6 +107,9 @@ var resetCmd = &cobra.Command{
 		if err != nil {
 			return fmt.Errorf("fail to get log record: %w", err)
 		}
+		if logRecord.Hash == nil {
+			return fmt.Errorf("'%s' does not point to a commit", args[0])
+		}
 
 		// reset HEAD
 		if isSoft || isMixed || isHard {
